@@ -165,8 +165,10 @@ def gen_instances(rng, preds, n, small=True):
     out = [""]
     if not preds:
         return out
-    for _ in range(n):
+    for i in range(n):
         k = rng.choice([1, 1, 2, 3, 4, 6, 8]) if small else rng.randint(1, 12)
+        if i >= 6:
+            k = rng.choice([4, 6, 8, 10, 14])      # extra instances (search mode): denser, so that joins happen
         vals = VALUES[: rng.choice([2, 3, 4, len(VALUES)])]
         facts = []
         for _ in range(k):
